@@ -191,6 +191,8 @@ def replay_only(chk, sd, replay_file):
 
 def report(chk, res, what, prefix=None, env=None):
     for m in res.get("mismatches") or []:
+        if prefix and prefix.startswith("boot/") and m["key"].endswith("/mask"):
+            continue        # the mask is one constant of a service; the main stage reports it
         if env:
             m["env"] = env
         if prefix:
